@@ -4,6 +4,7 @@ import OpusProofs.Delay
 import OpusProofs.MdctTdac
 import OpusProofs.MdctWindow
 import OpusProofs.DelayChannels
+import OpusProofs.MdctAlgoInv
 import OpusProps.C10
 /-
   C04 — "Encode then decode reproduces the input at the reported delay".
@@ -16,6 +17,10 @@ import OpusProps.C10
     * the *channel identity* clause at the multistream routing layer: the channel the encoder feeds into a stream
       side and the channel the decoder writes that stream side to are the same channel (no swap), for every layout,
       and for every channel of the surround layouts (regenerated Vorbis table);
+    * the *algorithm* of celt/mdct.c: clt_mdct_forward_c (window + fold, pre-rotation, N/4-point complex DFT,
+      post-rotation) written over ℝ equals `scale ·` the textbook MDCT of the windowed block, clt_mdct_backward_c equals
+      the textbook IMDCT with windowed overlap-add, and forward → backward on consecutive frames returns the input,
+      for every N divisible by 4 and every overlap divisible by 4 up to N/2 (the FFT taken as the DFT it computes);
     * the *exact mathematics* underneath "the output matches the input" for the CELT transform layer: the
       regenerated window is power-complementary to 2⁻²³, and MDCT → IMDCT → windowed overlap-add of consecutive
       blocks returns the input (time-domain alias cancellation), exactly for a Princen–Bradley window and to
@@ -31,7 +36,7 @@ import OpusProps.C10
       SNR(y[· + d], x) ≥ snr_min(c) ∧ ∀ band b, |E_b(y) − E_b(x)| ≤ tol_b(c) ∧ channels keep identity, sign, level.
 -/
 namespace OpusProps.C04
-open Opus Opus.Delay Opus.MdctR Opus.MdctWindow Opus.Gen.Window Opus.Layout Opus.DelayChannels
+open Opus Opus.Delay Opus.MdctR Opus.MdctWindow Opus.MdctAlgo Opus.Gen.Window Opus.Layout Opus.DelayChannels
 
 /-- Clause "delayed by exactly the lookahead the encoder reports" — the report itself: on any successfully
     created encoder OPUS_GET_LOOKAHEAD answers `Fs/400 + (0 if RESTRICTED_LOWDELAY else Fs/250)`,
@@ -232,5 +237,82 @@ theorem channel_identity_pcm {α} [OfNat α 0] (pcm : Src → List α)
 /-- Non-vacuity: a 5.1 encoder and decoder with the RFC 7845 layout are both created, with the same layout. -/
 example : encoderCreate true 6 4 2 [0, 4, 1, 2, 3, 5] = .ok ⟨⟨6, 4, 2, [0, 4, 1, 2, 3, 5]⟩, -1, .none⟩ ∧
     decoderCreate true 6 4 2 [0, 4, 1, 2, 3, 5] = .ok ⟨6, 4, 2, [0, 4, 1, 2, 3, 5]⟩ := by decide
+
+/-- Transform layer, the code's algorithm (clause "the output matches the input", structure of celt/mdct.c:122-264):
+    **clt_mdct_forward_c computes the MDCT.**  `forwardR` transcribes the C function over ℝ — the three window/fold
+    loops, the pre-rotation by `trig[i] = cos(2π(i+1/8)/N)`, the N/4-point complex FFT taken as the DFT it computes
+    (`dftRe`/`dftIm`, see `fft_is_dft`), the post-rotation and output interleaving.  For every transform size
+    `N = 4Q`, every overlap `4q ≤ N/2` (the C code needs 4 | overlap), every window table, input and scale:
+    output coefficient `m` is `scale ·` the textbook MDCT (the `mdct` of `mdct_tdac`) of the input placed in a block of
+    `N` samples under the zero / rise / one / fall / zero window. -/
+theorem mdct_forward_code (Q q : ℕ) (hQ : 0 < Q) (hq : 2 * q ≤ Q) (w inp : ℕ → ℝ) (scale : ℝ) (m : ℕ) (hm : m < 2 * Q) :
+    forwardR (4 * Q) (4 * q) w inp scale m = scale * mdct (2 * Q) (blockR (2 * Q) (4 * q) w inp) m :=
+  forward_eq_mdct Q q hQ hq w inp scale m hm
+
+/-- The shapes of the static mode (N = 1920·2^-shift, overlap 120) satisfy the hypotheses. -/
+example : ∀ Q ∈ [480, 240, 120, 60], 0 < Q ∧ 2 * 30 ≤ Q ∧ 4 * Q ∈ [1920, 960, 480, 240] ∧ 4 * 30 = overlap := by decide
+
+/-- What "FFT" means in `mdct_forward_code` / `mdct_backward_code`: `dftRe`/`dftIm` are the real and imaginary part of
+    the complex DFT `F_k = Σ_j (re_j + i·im_j)·exp(−2πi·jk/n)`. -/
+theorem fft_is_dft (n : ℕ) (re im : ℕ → ℝ) (k : ℕ) :
+    ((dftRe n re im k : ℂ) + (dftIm n re im k : ℂ) * Complex.I)
+      = ∑ j ∈ Finset.range n, ((re j : ℂ) + (im j : ℂ) * Complex.I)
+          * Complex.exp (-(2 * Real.pi * ((j * k : ℕ) : ℝ) / n : ℝ) * Complex.I) :=
+  dft_complex n re im k
+
+/-- **clt_mdct_backward_c computes the IMDCT with windowed overlap-add** (celt/mdct.c:268-371): `backwardR`
+    transcribes the C function over ℝ (pre-rotation with swapped parts, DFT, post-rotation and de-shuffle, the
+    "mirror on both sides for TDAC" loop).  For every `N = 4Q` and overlap `2h ≤ N/2`: (a) the post-rotation writes
+    `IMDCT(X)[N/4 + n]` at `out[overlap/2 + n]`; (b) the samples `out[N/2 + i]`, `i < overlap/2`, are left as the
+    un-mirrored tail `IMDCT(X)[3Q − h + i]`; (c) if `out[0 .. overlap/2)` holds the tail of the previous call, then
+    after the call `out[t] = W(t+z)·IMDCT(X)[t+z] + W(t+z+M)·IMDCT(Xprev)[t+z+M]` for all `t < M = N/2`. -/
+theorem mdct_backward_code (Q h : ℕ) (hQ : 0 < Q) (hh : h ≤ Q) (w X Xprev old : ℕ → ℝ) :
+    (∀ n, n < 2 * Q → backwardRaw (4 * Q) X n = imdct (2 * Q) X (Q + n)) ∧
+    (∀ i, i < h → backwardR (4 * Q) (2 * h) w X old (2 * Q + i) = imdct (2 * Q) X (3 * Q - h + i)) ∧
+    ((∀ i, i < h → old i = imdct (2 * Q) Xprev (3 * Q - h + i)) →
+      ∀ t, t < 2 * Q → backwardR (4 * Q) (2 * h) w X old t
+        = extWindow (2 * Q) (2 * h) w (t + (Q - h)) * imdct (2 * Q) X (t + (Q - h))
+          + extWindow (2 * Q) (2 * h) w (t + (Q - h) + 2 * Q) * imdct (2 * Q) Xprev (t + (Q - h) + 2 * Q)) :=
+  ⟨fun n hn => backwardRaw_eq_imdct Q hQ X n hn, fun i hi => backward_tail Q h hQ hh w X old i hi,
+   fun hold t ht => backward_overlap_add Q h hQ hh w X Xprev old hold t ht⟩
+
+example : (0 : ℕ) < 60 ∧ 60 ≤ 60 ∧ 2 * 60 = overlap := by decide
+
+/-- **The code reconstructs its input** (transform layer of "decode(encode(x)) = x", exact arithmetic): run
+    clt_mdct_forward_c (scale `1/(N/4)` = the code's `st->scale`) on two consecutive frames of any signal `x`, then
+    clt_mdct_backward_c on the first result into any buffer and on the second result into the buffer `N/2` samples
+    further (as celt_decoder.c does).  With a power-complementary short window, every one of the `N/2` samples of the
+    second call's frame is exactly the input sample, delayed by `z = (N/2 − overlap)/2` relative to the buffer start —
+    for every `N = 4Q`, overlap `4q ≤ N/2`, signal and initial buffer content. -/
+theorem mdct_code_roundtrip (Q q : ℕ) (hQ : 0 < Q) (hq : 2 * q ≤ Q) (w x old0 : ℕ → ℝ)
+    (hpb : ∀ i, i < 4 * q → w i ^ 2 + w (4 * q - 1 - i) ^ 2 = 1) (s t : ℕ) (ht : t < 2 * Q) :
+    let z := Q - 2 * q
+    let scale : ℝ := 1 / (Q : ℝ)
+    let Xa := forwardR (4 * Q) (4 * q) w (fun j => x (s + z + j)) scale
+    let Xb := forwardR (4 * Q) (4 * q) w (fun j => x (s + 2 * Q + z + j)) scale
+    let bufA := backwardR (4 * Q) (4 * q) w Xa old0
+    let bufB := backwardR (4 * Q) (4 * q) w Xb (fun i => bufA (2 * Q + i))
+    bufB t = x (s + 2 * Q + z + t) :=
+  celt_code_tdac Q q hQ hq w x old0 hpb s t ht
+
+/-- Non-vacuity: a power-complementary short window exists for every overlap. -/
+example (q : ℕ) : ∃ w : ℕ → ℝ, ∀ i, i < 4 * q → w i ^ 2 + w (4 * q - 1 - i) ^ 2 = 1 :=
+  ⟨fun _ => Real.sqrt (1 / 2), fun _ _ => by
+    have : Real.sqrt (1 / 2) ^ 2 = 1 / 2 := Real.sq_sqrt (by norm_num)
+    simp only [this]; norm_num⟩
+
+/-- The same for the static CELT mode with the **regenerated window table**: for N = 1920, 960, 480, 240
+    (`Q = N/4 ≥ 60`, overlap 120) the code's forward → backward returns every sample within 2⁻²³ relative. -/
+theorem celt_code_roundtrip_window (Q : ℕ) (hQ : 60 ≤ Q) (x old0 : ℕ → ℝ) (s t : ℕ) (ht : t < 2 * Q) :
+    let z := Q - 60
+    let scale : ℝ := 1 / (Q : ℝ)
+    let Xa := forwardR (4 * Q) 120 windowR (fun j => x (s + z + j)) scale
+    let Xb := forwardR (4 * Q) 120 windowR (fun j => x (s + 2 * Q + z + j)) scale
+    let bufA := backwardR (4 * Q) 120 windowR Xa old0
+    let bufB := backwardR (4 * Q) 120 windowR Xb (fun i => bufA (2 * Q + i))
+    |bufB t - x (s + 2 * Q + z + t)| ≤ 1 / 2 ^ 23 * |x (s + 2 * Q + z + t)| :=
+  celt_code_tdac_window Q hQ x old0 s t ht
+
+example : overlap = 120 ∧ mdctN = 1920 ∧ mdctMaxShift = 3 := by decide
 
 end OpusProps.C04
